@@ -325,6 +325,25 @@ def finish(pid, tier, spec, units, results, engines, known, t0):
         rc = 2
         for x in undecided:
             print("UNDECIDED property=%s %s" % (pid, x))
+        # Bounded stand-in (labelled as such, never counted as proved): if the text of a function under contract has
+        # CHANGED and the verifier cannot be brought to bear on the changed text (annotations do not transplant: tool
+        # error / displaced annotations), search the property's replay bank for a concrete failing input of the real
+        # code. A concrete failing input is a violation on its own evidence; finding none leaves the run UNDECIDED.
+        changed = [f["function"] for f in funcs if f["text"] != "identical"]
+        if changed:
+            import replay
+            found, note, ntried = replay.search(pid, REPO, tier, SEED)
+            bounded_note = "bounded stand-in over the %s replay bank (%d cases) because the changed function(s) %s could not be re-verified" % (pid, ntried, changed)
+            print("BOUNDED-STANDIN property=%s %s" % (pid, bounded_note))
+            if found:
+                os.makedirs(os.path.join(ROOT, "replay", "out"), exist_ok=True)
+                path = os.path.join(ROOT, "replay", "out", "%s-bounded-standin.json" % pid)
+                with open(path, "w") as f:
+                    json.dump({"property": pid, "obligation": "bounded stand-in (not a proof obligation): " + bounded_note,
+                               "failing_input": found, "cases_tried": ntried, "undecided": undecided}, f, indent=1)
+                print("VIOLATION property=%s replay=%s" % (pid, path))
+                rc = 1
+                viol = [("bounded stand-in", "replay", found)]
     wall = time.time() - t0
     level = spec.get("level", "proof")
     cov = {
